@@ -143,6 +143,92 @@ def check_helper(ctx, rep, helper, lockfield):
     return flag
 
 
+def looptop_rule(ctx, rep, flag=None, helper=None):
+    """shared with C03: every iteration of a worker decides the stop conditions before doing work, and the thread
+    leaves its loop only when one of them is true"""
+    prog = ctx.prog
+    if helper is None:
+        helper, _lf = helper_lock_field(ctx)
+    if flag is None:
+        flag = gate_flag(ctx)
+    if "R-LOOPTOP" not in rep.rules:
+        rep.rule("R-LOOPTOP", "every worker loop decides 'executor collected / shut down / interpreter exiting' before any work of an iteration, and returns only when one of them is true")
+    if "R-LOOPWRAP" not in rep.rules:
+        rep.rule("R-LOOPWRAP", "every worker thread target is wrapped by executor_loop")
+    # ------------------------------------------------------------ R-LOOPTOP
+    rep.count("worker threads", len(ctx.types.thread_targets), 4)
+    loopwrap = prog.fn("helpers:executor_loop")
+    for owner, target, node, initfi in ctx.types.thread_targets:
+        rep.ob("R-LOOPWRAP", "%s: wrapped by executor_loop" % target.qualname, "executor_loop" in target.decorators, "thread target is not decorated with executor_loop", where_of(target))
+        ps, it = ctx.paths(target, target.owner if target.owner else None)
+        gates = ctx.gate_field(owner)
+        n_iter = 0
+        for p in ps:
+            # classify events
+            deref = None
+            for e in p.evs("branch"):
+                if it.type_of(e.d[0], p) == "C:" + owner.key:
+                    deref = e
+                    break
+            shut = None
+            for e in p.evs("branch"):
+                t = e.d[0]
+                if isinstance(t, tuple) and t[0] == "attr" and t[2] == flag and it.type_of(t[1], p) == "C:" + helper.key:
+                    shut = e
+                    break
+            glob = None
+            isd = [e for e in p.calls() if e.d["callee"] is not None and e.d["callee"].qualname == "is_shutdown"]
+            if isd:
+                rets = [e for e in p.evs("return") if e.fn is isd[0].d["callee"] and e.seq > isd[0].seq]
+                if rets:
+                    for e in p.evs("branch"):
+                        if e.d[0] == rets[0].d and e.seq > rets[0].seq:
+                            glob = e
+                            break
+            work = None
+            for e in p.events:
+                if e.kind == "enter":
+                    work = e
+                    break
+                if e.kind == "call" and not q.is_log(e):
+                    c = e.d["callee"]
+                    if e.d.get("user"):
+                        work = e
+                        break
+                    if c is not None and c.qualname == "is_shutdown":
+                        continue
+                    if c is not None and c.owner is None and e.d["inlined"] and c.module is target.module and c.name.endswith("_iter"):
+                        continue  # the loop body helper itself
+                    if c is not None and c.owner is owner and e.d["inlined"] and c.name.endswith("_iter"):
+                        continue
+                    f = e.d["func"]
+                    if isinstance(f, tuple) and f[0] == "param":
+                        continue  # the weakref dereference
+                    if e.d.get("builtin"):
+                        continue
+                    work = e
+                    break
+            sig = q.path_sig(p)
+            key = "%s [%s]" % (target.qualname, sig[:120])
+            stop = (deref is not None and deref.d[1] is False) or (shut is not None and shut.d[1] is True) or (glob is not None and glob.d[1] is True)
+            if stop:
+                stop_ev = [e for e in (deref, shut, glob) if e is not None and ((e is deref and e.d[1] is False) or (e is not deref and e.d[1] is True))][0]
+                ok = p.status == "return" and (work is None or work.seq > stop_ev.seq and False)
+                rep.ob("R-LOOPTOP", key + " leaves the loop", ok, "a positive stop test must end the loop without doing work (status %s)" % p.status, where_of(target), trace_of(p))
+                continue
+            if p.status == "return":
+                # the thread function returns although no stop condition was found true on this path
+                rep.ob("R-LOOPTOP", key + " keeps running", False, "the worker thread leaves its loop (returns) on a path where the executor was neither collected nor shut down and the interpreter is not exiting: every future still queued or submitted later is never served", where_of(target), trace_of(p))
+                continue
+            if work is None and p.status != "loop":
+                continue
+            n_iter += 1
+            missing = [n for n, e in (("executor collected", deref), ("executor shut down", shut), ("interpreter exiting", glob)) if e is None or (work is not None and e.seq > work.seq)]
+            rep.ob("R-LOOPTOP", key + " tests before work", not missing, "iteration reaches %s without deciding: %s" % (fmt(work.d["func"]) if work is not None and work.kind == "call" else "its work", ", ".join(missing)), where_of(work.fn, work.node) if work is not None else where_of(target), trace_of(p, work.seq if work is not None else None))
+        rep.ob("R-LOOPTOP", "%s: has working iterations" % target.qualname, n_iter > 0, "no iteration path with work found (analysis anchor)", where_of(target))
+
+
+
 def check(ctx, rep):
     prog = ctx.prog
     rep.rule("R-GATE", "every effect of a public submit* entry point (delegate interaction, base-class submit, user call, enqueue into executor state) happens with the executor's own ShutdownHelper lock held; when the flag is set the entry point raises RuntimeError('%s') before any effect" % MSG)
@@ -238,73 +324,7 @@ def check(ctx, rep):
         rep.ob("R-SHUT", "%s.shutdown: has a first-shutdown path" % ci.name, first_paths > 0, "no path of shutdown() flips the executor's shutdown flag", where_of(m))
     rep.count("shutdown methods", n_shut, 10)
 
-    # ------------------------------------------------------------ R-LOOPTOP
-    rep.count("worker threads", len(ctx.types.thread_targets), 4)
-    loopwrap = prog.fn("helpers:executor_loop")
-    for owner, target, node, initfi in ctx.types.thread_targets:
-        rep.ob("R-LOOPWRAP", "%s: wrapped by executor_loop" % target.qualname, "executor_loop" in target.decorators, "thread target is not decorated with executor_loop", where_of(target))
-        ps, it = ctx.paths(target, target.owner if target.owner else None)
-        gates = ctx.gate_field(owner)
-        n_iter = 0
-        for p in ps:
-            # classify events
-            deref = None
-            for e in p.evs("branch"):
-                if it.type_of(e.d[0], p) == "C:" + owner.key:
-                    deref = e
-                    break
-            shut = None
-            for e in p.evs("branch"):
-                t = e.d[0]
-                if isinstance(t, tuple) and t[0] == "attr" and t[2] == flag and it.type_of(t[1], p) == "C:" + helper.key:
-                    shut = e
-                    break
-            glob = None
-            isd = [e for e in p.calls() if e.d["callee"] is not None and e.d["callee"].qualname == "is_shutdown"]
-            if isd:
-                rets = [e for e in p.evs("return") if e.fn is isd[0].d["callee"] and e.seq > isd[0].seq]
-                if rets:
-                    for e in p.evs("branch"):
-                        if e.d[0] == rets[0].d and e.seq > rets[0].seq:
-                            glob = e
-                            break
-            work = None
-            for e in p.events:
-                if e.kind == "enter":
-                    work = e
-                    break
-                if e.kind == "call" and not q.is_log(e):
-                    c = e.d["callee"]
-                    if e.d.get("user"):
-                        work = e
-                        break
-                    if c is not None and c.qualname == "is_shutdown":
-                        continue
-                    if c is not None and c.owner is None and e.d["inlined"] and c.module is target.module and c.name.endswith("_iter"):
-                        continue  # the loop body helper itself
-                    if c is not None and c.owner is owner and e.d["inlined"] and c.name.endswith("_iter"):
-                        continue
-                    f = e.d["func"]
-                    if isinstance(f, tuple) and f[0] == "param":
-                        continue  # the weakref dereference
-                    if e.d.get("builtin"):
-                        continue
-                    work = e
-                    break
-            sig = q.path_sig(p)
-            key = "%s [%s]" % (target.qualname, sig[:120])
-            stop = (deref is not None and deref.d[1] is False) or (shut is not None and shut.d[1] is True) or (glob is not None and glob.d[1] is True)
-            if stop:
-                stop_ev = [e for e in (deref, shut, glob) if e is not None and ((e is deref and e.d[1] is False) or (e is not deref and e.d[1] is True))][0]
-                ok = p.status == "return" and (work is None or work.seq > stop_ev.seq and False)
-                rep.ob("R-LOOPTOP", key + " leaves the loop", ok, "a positive stop test must end the loop without doing work (status %s)" % p.status, where_of(target), trace_of(p))
-                continue
-            if work is None and p.status != "loop":
-                continue
-            n_iter += 1
-            missing = [n for n, e in (("executor collected", deref), ("executor shut down", shut), ("interpreter exiting", glob)) if e is None or (work is not None and e.seq > work.seq)]
-            rep.ob("R-LOOPTOP", key + " tests before work", not missing, "iteration reaches %s without deciding: %s" % (fmt(work.d["func"]) if work is not None and work.kind == "call" else "its work", ", ".join(missing)), where_of(work.fn, work.node) if work is not None else where_of(target), trace_of(p, work.seq if work is not None else None))
-        rep.ob("R-LOOPTOP", "%s: has working iterations" % target.qualname, n_iter > 0, "no iteration path with work found (analysis anchor)", where_of(target))
+    looptop_rule(ctx, rep, flag, helper)
 
     # ------------------------------------------------ stop flags and the wake-up protocol
     # shutdown() sets the flag and then the event; the loop must re-read the flag between its clear() and
@@ -314,6 +334,7 @@ def check(ctx, rep):
     wake.check_loops(ctx, rep, wake.discover(ctx), components="flags")
 
     # ----------------------------------------------------------- R-LOOPWRAP
+    loopwrap = prog.fn("helpers:executor_loop")
     inner = [f for f in loopwrap.nested.values()]
     rep.require(len(inner) == 1, "executor_loop: expected one nested wrapper function")
     ps, it = ctx.paths(inner[0], None)
